@@ -568,12 +568,14 @@ func (tm *TaskMaster) StartTask(t *Task) (*ExecutingTask, error) {
 	if tm.TaskStore.HasSnapshot(t.ID) {
 		snapshot, err = tm.TaskStore.LoadSnapshot(t.ID)
 		if err != nil {
+			tm.removeInputs(et)
 			return nil, err
 		}
 	}
 
 	err = et.start(ins, snapshot)
 	if err != nil {
+		tm.removeInputs(et)
 		return nil, err
 	}
 
@@ -582,6 +584,19 @@ func (tm *TaskMaster) StartTask(t *Task) (*ExecutingTask, error) {
 	tm.diag.TaskMasterDot(string(t.Dot()))
 
 	return et, nil
+}
+
+// removeInputs unregisters the inputs created for a task that failed to start.
+// Nobody reads from them, left in place a stream edge would fill up and block
+// forkPoint, and with it the data of every other task, forever.
+// The caller must have acquired the lock.
+func (tm *TaskMaster) removeInputs(et *ExecutingTask) {
+	switch et.Task.Type {
+	case StreamTask:
+		tm.delFork(et.Task.ID)
+	case BatchTask:
+		delete(tm.batches, et.Task.ID)
+	}
 }
 
 func (tm *TaskMaster) BatchCollectors(id string) []BatchCollector {
